@@ -161,4 +161,95 @@ theorem emitToken_full (d : Disp (FullSt cfg)) (input : Bytes) (raw : Range) (to
       · rw [(Chunk.flushEncodingChange_desc _).2.2.2.2.2.2.1]; exact t3.pa.trans hd1.2.1
       · rw [(Chunk.flushEncodingChange_desc _).2.2.2.2.2.1]; exact t3.gf.trans hd1.2.2
 
+/-- `try_produce_token_from_lexeme` on a start-tag lexeme -/
+theorem produceTag_start_full (d : Disp (FullSt cfg)) (input : Bytes) (lx : TagLexeme)
+    (name : Range) (h : Nat) (ns : Model.Ns) (as : List AttrOutline) (sc : Bool)
+    (ho : lx.outline = .startTag name h ns as sc) :
+    (d.flags.nextStartTag = false →
+      (d.produceTag (fullCtl cfg) input lx).2 = .ok () ∧ (d.produceTag (fullCtl cfg) input lx).1.ctl = d.ctl ∧
+      SameBut d (d.produceTag (fullCtl cfg) input lx).1) ∧
+    (d.flags.nextStartTag = true →
+      (∃ e, DispOwn e ∧ (d.produceTag (fullCtl cfg) input lx).2 = .error e) ∨
+      (∃ n attrs raw,
+        (d.produceTag (fullCtl cfg) input lx).1.ctl.1 =
+          (token cfg d.ctl.1 (.startTag n attrs ns sc raw (srcOf lx.prevConsumed lx.raw) lx.prevConsumed)).1 ∧
+        SameBut d (d.produceTag (fullCtl cfg) input lx).1 ∧
+        (d.produceTag (fullCtl cfg) input lx).2 =
+          (match (token cfg d.ctl.1 (.startTag n attrs ns sc raw (srcOf lx.prevConsumed lx.raw) lx.prevConsumed)).2.err with
+           | some e => .error e
+           | none => .ok ()))) := by
+  constructor
+  · intro hf
+    unfold Disp.produceTag tagToToken
+    simp only [ho, hf, Bool.false_eq_true, if_false]
+    refine ⟨?_, ?_, ⟨?_, ?_⟩⟩ <;> first | rfl | trivial
+  · intro hf
+    unfold Disp.produceTag tagToToken
+    simp only [ho, hf, if_true]
+    cases h1 : checkedSlice input name with
+    | none => exact Or.inl ⟨_, Or.inr (Or.inl rfl), rfl⟩
+    | some n =>
+      cases h2 : attrsOf input as with
+      | none => exact Or.inl ⟨_, Or.inr (Or.inl rfl), rfl⟩
+      | some attrs =>
+        cases h3 : checkedSlice input lx.raw with
+        | none => exact Or.inl ⟨_, Or.inr (Or.inl rfl), rfl⟩
+        | some raw =>
+          simp only
+          rcases emitToken_full (cfg := cfg) { d with flags := { d.flags with nextStartTag := false } } input lx.raw
+            (.startTag n attrs ns sc raw (srcOf lx.prevConsumed lx.raw) lx.prevConsumed) with ⟨e, he, h4, _⟩ | ⟨h4, h5, h6⟩
+          · exact Or.inl ⟨e, he, h4⟩
+          · exact Or.inr ⟨n, attrs, raw, h4, ⟨h5.pa, h5.gf⟩, h6⟩
+
+/-- … on an end-tag lexeme -/
+theorem produceTag_end_full (d : Disp (FullSt cfg)) (input : Bytes) (lx : TagLexeme)
+    (name : Range) (h : Nat) (ho : lx.outline = .endTag name h) :
+    (d.flags.nextEndTag = false →
+      (d.produceTag (fullCtl cfg) input lx).2 = .ok () ∧ (d.produceTag (fullCtl cfg) input lx).1.ctl = d.ctl ∧
+      SameBut d (d.produceTag (fullCtl cfg) input lx).1) ∧
+    (d.flags.nextEndTag = true →
+      (∃ e, DispOwn e ∧ (d.produceTag (fullCtl cfg) input lx).2 = .error e) ∨
+      (∃ n raw,
+        (d.produceTag (fullCtl cfg) input lx).1.ctl.1 =
+          (token cfg d.ctl.1 (.endTag n raw (srcOf lx.prevConsumed lx.raw))).1 ∧
+        SameBut d (d.produceTag (fullCtl cfg) input lx).1 ∧
+        (d.produceTag (fullCtl cfg) input lx).2 =
+          (match (token cfg d.ctl.1 (.endTag n raw (srcOf lx.prevConsumed lx.raw))).2.err with
+           | some e => .error e
+           | none => .ok ()))) := by
+  constructor
+  · intro hf
+    unfold Disp.produceTag tagToToken
+    simp only [ho, hf, Bool.false_eq_true, if_false]
+    refine ⟨?_, ?_, ⟨?_, ?_⟩⟩ <;> first | rfl | trivial
+  · intro hf
+    unfold Disp.produceTag tagToToken
+    simp only [ho, hf, if_true]
+    cases h1 : checkedSlice input name with
+    | none => exact Or.inl ⟨_, Or.inr (Or.inl rfl), rfl⟩
+    | some n =>
+      cases h3 : checkedSlice input lx.raw with
+      | none => exact Or.inl ⟨_, Or.inr (Or.inl rfl), rfl⟩
+      | some raw =>
+        simp only
+        rcases emitToken_full (cfg := cfg) { d with flags := { d.flags with nextEndTag := false } } input lx.raw
+          (.endTag n raw (srcOf lx.prevConsumed lx.raw)) with ⟨e, he, h4, _⟩ | ⟨h4, h5, h6⟩
+        · exact Or.inl ⟨e, he, h4⟩
+        · exact Or.inr ⟨n, raw, h4, ⟨h5.pa, h5.gf⟩, h6⟩
+
+theorem adjust_noname (d : Disp (FullSt cfg)) (hp : d.pendingAux = false) (input : Bytes) (lx : TagLexeme)
+    (hl : LocalName.new input lx.outline.name lx.outline.nameHash = none) :
+    (d.adjustFlagsForTag (fullCtl cfg) input lx).2 = .error (.panic "Bytes::slice out of range (tag name)") := by
+  unfold Disp.adjustFlagsForTag
+  rw [if_neg (by rw [hp]; simp)]
+  cases ho : lx.outline with
+  | startTag name h ns as sc =>
+    rw [ho] at hl
+    simp only [TagOutline.name, TagOutline.nameHash] at hl
+    simp only [hl]
+  | endTag name h =>
+    rw [ho] at hl
+    simp only [TagOutline.name, TagOutline.nameHash] at hl
+    simp only [hl]
+
 end LolHtml.Model.Full
